@@ -300,15 +300,23 @@ def run(rep, tier, seed, replay):
     if replay:
         cases = [json.load(open(replay))["case"]]
     else:
-        def cfg(name, a, b, t):
+        def cfg(name, a, b, t, ev="FALSE", stops="TRUE"):
             p = os.path.join(vlib.SPEC, "gen_%s.cfg" % name)
-            open(p, "w").write("SPECIFICATION Spec\nCONSTANTS\n  NoticeAfterNext = %s\n  FlagClearedAtRunStart = %s\n  Together = %s\nINVARIANTS InvMonitor\n" % (a, b, t))
+            open(p, "w").write("SPECIFICATION Spec\nCONSTANTS\n  NoticeAfterNext = %s\n  FlagClearedAtRunStart = %s\n  Together = %s\n  RunIsEval = %s\n  EvalStopsAtError = %s\nINVARIANTS InvMonitor\n" % (a, b, t, ev, stops))
             return os.path.basename(p)
         for t in ("FALSE", "TRUE"):
             r = vlib.tlc("Errors_MC", cfg("err_ideal", "TRUE", "TRUE", t), workers=vlib.NCPU, timeout_s=900)
             if not r.ok:
                 raise vlib.MachineryError("Errors design check failed: %s %s" % (r.violated, (r.error or "")[:400]))
             rep.add_tlc(r, "Errors_MC ideal, scripts %s" % ("scheduled together" if t == "TRUE" else "in consecutive runs"))
+        r = vlib.tlc("Errors_MC", cfg("err_ideal", "TRUE", "TRUE", "FALSE", ev="TRUE"), workers=vlib.NCPU, timeout_s=900)
+        if not r.ok:
+            raise vlib.MachineryError("Errors design check (evaluations) failed: %s %s" % (r.violated, (r.error or "")[:400]))
+        rep.add_tlc(r, "Errors_MC ideal, consecutive expression evaluations")
+        r2 = vlib.tlc("Errors_MC", cfg("err_dev", "TRUE", "TRUE", "FALSE", ev="TRUE", stops="FALSE"), workers=4, timeout_s=600)
+        if r2.violated != "InvMonitor":
+            raise vlib.MachineryError("vacuity self-test: deviation EvalIgnoresError must be refuted, got %s" % r2.violated)
+        rep.design_runs.append({"what": "deviation EvalIgnoresError (the evaluation loop goes on after an unhandled error) refuted (non-vacuity)", "generated": r2.generated, "distinct": r2.distinct})
         for t in ("FALSE", "TRUE"):
             r2 = vlib.tlc("Errors_MC", cfg("err_dev", "FALSE", "FALSE", t), workers=4, timeout_s=600)
             if r2.violated != "InvMonitor":
